@@ -49,6 +49,7 @@ type recProcessor struct {
 	last      uint64
 	delivered []recBlock
 	failNext  int
+	failLast  int // the next failLast reads of the last-processed marker fail (transient store error), returning 0 like the real stores
 	inRetry   bool
 	viol      *Violation
 	rec       *Recorder
@@ -79,6 +80,11 @@ func watchedLogs(b *FBlock) []ethtypes.Log {
 func (p *recProcessor) GetLastProcessedBlock(ctx context.Context) (uint64, error) {
 	p.mu.Lock()
 	defer p.mu.Unlock()
+	if p.failLast > 0 {
+		p.failLast--
+		p.rec.Stats.Inc("fault_last_processed_read_error")
+		return 0, errors.New("injected GetLastProcessedBlock failure")
+	}
 	return p.last, nil
 }
 
@@ -189,9 +195,11 @@ func C05Config(prop string, r *Rand, tier string) map[string]int64 {
 		c["ops"] = int64(r.Range(30, 300))
 	}
 	c["start"] = 0
-	if r.Bool(20) {
+	if r.Bool(30) {
 		c["start"] = int64(r.Range(1, 6))
 	}
+	// transient failures of the store's marker read when the driver starts
+	c["lastfail"] = int64([]int{0, 0, 0, 1, 1, 2}[r.Intn(6)])
 	c["log_density"] = int64(r.Range(10, 70)) // % of blocks with watched logs
 	c["w_mine"] = int64(r.Range(5, 25))
 	c["w_fin"] = int64(r.Range(3, 20))
@@ -200,7 +208,7 @@ func C05Config(prop string, r *Rand, tier string) map[string]int64 {
 	c["w_rpcfault"] = int64(r.Range(0, 12))
 	c["w_procfail"] = int64(r.Range(0, 5))
 	if r.Bool(15) { // fault-free batch
-		c["w_rpcfault"], c["w_procfail"] = 0, 0
+		c["w_rpcfault"], c["w_procfail"], c["lastfail"] = 0, 0, 0
 	}
 	c["tip_final"] = 0
 	if r.Bool(15) {
@@ -276,7 +284,7 @@ func runC05(tr *Trace, sc *Script, rec *Recorder, scratch string) *Violation {
 	chain := NewChain(1337, tr.Seed)
 	syncTag := finalityTags[cfg["sync_tag"]%3]
 	detTag := finalityTags[cfg["detector_tag"]%3]
-	proc := &recProcessor{chain: chain, rec: rec, last: uint64(cfg["start"])}
+	proc := &recProcessor{chain: chain, rec: rec, last: uint64(cfg["start"]), failLast: int(cfg["lastfail"])}
 	// pre-existing chain up to the start block (already "processed")
 	pre := NewRand(tr.Seed ^ 0xc05)
 	for i := int64(0); i < cfg["start"]; i++ {
@@ -369,6 +377,10 @@ func runC05(tr *Trace, sc *Script, rec *Recorder, scratch string) *Violation {
 			}
 			return Op{K: "rel", S: labels[r.Intn(len(labels))], A: []int64{m}}, true
 		default:
+			if r.Bool(25) {
+				// the marker read fails the next time the driver (re)starts its loop (after a reorg)
+				return Op{K: "lastfail", A: []int64{1}}, true
+			}
 			return Op{K: "procfail", A: []int64{int64(1 + r.Intn(2))}}, true
 		}
 	}
@@ -440,6 +452,11 @@ func runC05(tr *Trace, sc *Script, rec *Recorder, scratch string) *Violation {
 		case "time":
 			w.Advance(time.Duration(op.Arg(0)) * time.Millisecond)
 			rec.Step("T")
+		case "lastfail":
+			proc.mu.Lock()
+			proc.failLast = int(op.Arg(0))
+			proc.mu.Unlock()
+			rec.Step("Lf")
 		case "procfail":
 			proc.mu.Lock()
 			proc.failNext += int(op.Arg(0))
